@@ -528,6 +528,21 @@ class Check:
             self.coverage["axioms_used"] = axs
         return self.proof_broken is None
 
+    def translate_and_prove(self, units, timeout=1500):
+        """Regenerate coq/Gen from /repo's working tree for the given translator units, then prove().  A translator that
+        refuses the current source (construct outside its subset, function gone) is a broken tie: the stale generated
+        file is not trusted, no theorem counts as discharged."""
+        broken = translate(units)
+        self.coverage["translator_units"] = list(units)
+        if broken:
+            self.proof_broken = {"kind": "translator", "messages": broken}
+            self.notes.append("translator refused the current source: " + "; ".join(broken))
+            self.obligations = len(property_theorems(self.prop))
+            self.discharged = 0
+            self.coverage["theorems"] = property_theorems(self.prop)
+            return False
+        return self.prove(timeout=timeout)
+
     def finish(self):
         """Write evidence, print verdict lines, return exit code."""
         # A broken proof with no concrete failing input found still is a violation.
